@@ -152,13 +152,13 @@ impl<PointType> GenericPolyline<PointType> {
 pub type Polyline = GenericPolyline<Point>;
 
 impl Polyline {
-    pub(crate) fn size_of_record(num_points: i32, num_parts: i32) -> usize {
-        let mut size = 0usize;
-        size += 4 * size_of::<f64>(); // BBOX
-        size += size_of::<i32>(); // num parts
-        size += size_of::<i32>(); // num points
-        size += size_of::<i32>() * num_parts as usize;
-        size += size_of::<Point>() * num_points as usize;
+    pub(crate) fn size_of_record(num_points: i32, num_parts: i32) -> i64 {
+        let mut size = 0i64;
+        size += 4 * size_of::<f64>() as i64; // BBOX
+        size += size_of::<i32>() as i64; // num parts
+        size += size_of::<i32>() as i64; // num points
+        size += size_of::<i32>() as i64 * i64::from(num_parts);
+        size += size_of::<Point>() as i64 * i64::from(num_points);
         size
     }
 }
@@ -178,7 +178,7 @@ impl HasShapeType for Polyline {
 impl ConcreteReadableShape for Polyline {
     fn read_shape_content<T: Read>(source: &mut T, record_size: i32) -> Result<Self, Error> {
         let rdr = MultiPartShapeReader::<Point, T>::new(source)?;
-        if record_size != Self::size_of_record(rdr.num_points, rdr.num_parts) as i32 {
+        if i64::from(record_size) != Self::size_of_record(rdr.num_points, rdr.num_parts) {
             Err(Error::InvalidShapeRecordSize)
         } else {
             rdr.read_xy().map_err(Error::IoError).map(|rdr| Self {
@@ -227,11 +227,11 @@ impl EsriShape for Polyline {
 pub type PolylineM = GenericPolyline<PointM>;
 
 impl PolylineM {
-    pub(crate) fn size_of_record(num_points: i32, num_parts: i32, is_m_used: bool) -> usize {
+    pub(crate) fn size_of_record(num_points: i32, num_parts: i32, is_m_used: bool) -> i64 {
         let mut size = Polyline::size_of_record(num_points, num_parts);
         if is_m_used {
-            size += 2 * size_of::<f64>(); // MRange
-            size += num_points as usize * size_of::<f64>(); // M
+            size += 2 * size_of::<f64>() as i64; // MRange
+            size += i64::from(num_points) * size_of::<f64>() as i64; // M
         }
         size
     }
@@ -253,9 +253,9 @@ impl ConcreteReadableShape for PolylineM {
     fn read_shape_content<T: Read>(source: &mut T, record_size: i32) -> Result<Self, Error> {
         let rdr = MultiPartShapeReader::<PointM, T>::new(source)?;
 
-        let record_size_with_m = Self::size_of_record(rdr.num_points, rdr.num_parts, true) as i32;
-        let record_size_without_m =
-            Self::size_of_record(rdr.num_points, rdr.num_parts, false) as i32;
+        let record_size = i64::from(record_size);
+        let record_size_with_m = Self::size_of_record(rdr.num_points, rdr.num_parts, true);
+        let record_size_without_m = Self::size_of_record(rdr.num_points, rdr.num_parts, false);
 
         if (record_size != record_size_with_m) && (record_size != record_size_without_m) {
             Err(Error::InvalidShapeRecordSize)
@@ -314,13 +314,13 @@ impl EsriShape for PolylineM {
 pub type PolylineZ = GenericPolyline<PointZ>;
 
 impl PolylineZ {
-    pub(crate) fn size_of_record(num_points: i32, num_parts: i32, is_m_used: bool) -> usize {
+    pub(crate) fn size_of_record(num_points: i32, num_parts: i32, is_m_used: bool) -> i64 {
         let mut size = Polyline::size_of_record(num_points, num_parts);
-        size += 2 * size_of::<f64>(); // ZRange
-        size += num_points as usize * size_of::<f64>(); // Z
+        size += 2 * size_of::<f64>() as i64; // ZRange
+        size += i64::from(num_points) * size_of::<f64>() as i64; // Z
         if is_m_used {
-            size += 2 * size_of::<f64>(); // MRange
-            size += num_points as usize * size_of::<f64>(); // M
+            size += 2 * size_of::<f64>() as i64; // MRange
+            size += i64::from(num_points) * size_of::<f64>() as i64; // M
         }
         size
     }
@@ -342,9 +342,9 @@ impl ConcreteReadableShape for PolylineZ {
     fn read_shape_content<T: Read>(source: &mut T, record_size: i32) -> Result<Self, Error> {
         let rdr = MultiPartShapeReader::<PointZ, T>::new(source)?;
 
-        let record_size_with_m = Self::size_of_record(rdr.num_points, rdr.num_parts, true) as i32;
-        let record_size_without_m =
-            Self::size_of_record(rdr.num_points, rdr.num_parts, false) as i32;
+        let record_size = i64::from(record_size);
+        let record_size_with_m = Self::size_of_record(rdr.num_points, rdr.num_parts, true);
+        let record_size_without_m = Self::size_of_record(rdr.num_points, rdr.num_parts, false);
 
         if (record_size != record_size_with_m) && (record_size != record_size_without_m) {
             Err(Error::InvalidShapeRecordSize)
